@@ -30,6 +30,7 @@ type mfEntry struct {
 	Pad    int  // > 0: make the entry's line longer than 64 KiB with Pad filler characters
 	Total  int  // > 0: pad the BODY with filler so that the sized part of the entry is exactly Total bytes
 	Empty  bool // the all-empty entry a JSON null decodes to
+	Loose  bool // an entry the statement does not pin (a field missing / null / given twice): identified by its tag alone
 	Fmt    string
 }
 
@@ -189,7 +190,94 @@ func mfRenderItem(format, cls string, rest string) (string, *mfEntry) {
 	case "nullvalue":
 		return mfJSONItem(format, `null`), &mfEntry{ID: "x", Empty: true}
 	}
+	// field-level JSON classes: the well-formed object of x with ONE field replaced / added
+	if item, loose, ok := mfJSONFieldItem(format, cls); ok {
+		if loose {
+			return mfJSONItem(format, item), &mfEntry{ID: "x", Tag: "x", Loose: true}
+		}
+		return mfJSONItem(format, item), nil
+	}
 	panic("class " + cls)
+}
+
+// mfJSONFieldItem: (JSON text, identified loosely when delivered, known class)
+func mfJSONFieldItem(format, cls string) (string, bool, bool) {
+	var fields [][2]string // name, raw JSON value - in order
+	if format == "grpcjson" {
+		fields = [][2]string{{"tag", `"x"`}, {"call", `"pkg.Service.X"`}, {"metadata", `{"x-common":"c"}`}, {"payload", `{"id":"x","pad":""}`}}
+	} else {
+		fields = [][2]string{{"tag", `"x"`}, {"uri", `"/x?q=x"`}, {"method", `"PUT"`}, {"host", `"json.example.org"`},
+			{"headers", `{"X-Common":"c"}`}, {"body", `"{\"n\":\"x\"}"`}}
+	}
+	set := func(name, raw string) {
+		for i := range fields {
+			if fields[i][0] == name {
+				fields[i][1] = raw
+				return
+			}
+		}
+		machinery("class %s: no field %q in a %s entry", cls, name, format)
+	}
+	loose := false
+	switch cls {
+	case "payload_scalar":
+		set("payload", `42`)
+	case "payload_array":
+		set("payload", `[1,2]`)
+	case "payload_string":
+		set("payload", `"str"`)
+	case "meta_list":
+		set("metadata", `["a","b"]`)
+	case "meta_nonstring":
+		set("metadata", `{"x-common":5}`)
+	case "meta_nested":
+		set("metadata", `{"x-common":{"a":"b"}}`)
+	case "call_number":
+		set("call", `5`)
+	case "tag_object":
+		set("tag", `{"a":1}`)
+	case "hdr_list":
+		set("headers", `["X-Common: c"]`)
+	case "hdr_nonstring":
+		set("headers", `{"X-Common":5}`)
+	case "hdr_nested":
+		set("headers", `{"X-Common":{"a":"b"}}`)
+	case "body_number":
+		set("body", `5`)
+	case "body_object":
+		set("body", `{"n":"x"}`)
+	case "uri_number":
+		set("uri", `5`)
+	case "host_list":
+		set("host", `["json.example.org"]`)
+	case "method_number":
+		set("method", `5`)
+	case "tag_number":
+		set("tag", `5`)
+	case "dup_field":
+		loose = true
+		fields = append(fields, [2]string{"tag", `"x"`})
+	case "extra_field":
+		loose = true
+		fields = append(fields, [2]string{"nosuchfield", `{"a":[1,2]}`})
+	case "field_null":
+		loose = true
+		if format == "grpcjson" {
+			set("payload", `null`)
+		} else {
+			set("headers", `null`)
+		}
+	case "call_missing":
+		loose = true
+		fields = append(fields[:1], fields[2:]...)
+	default:
+		return "", false, false
+	}
+	parts := []string{}
+	for _, f := range fields {
+		parts = append(parts, `"`+f[0]+`":`+f[1])
+	}
+	return "{" + strings.Join(parts, ",") + "}", loose, true
 }
 
 func mfJSONItem(format, s string) string {
@@ -240,6 +328,12 @@ func mfRenderCase(c mfCase) ([]byte, []mfEntry) {
 		item, x = mfRenderCut(c.Format, point)
 	} else if c.Cls == "rerun" {
 		base, _ := c.Arg[0].(string)
+		item, x = mfRenderItem(c.Format, base, rest)
+	} else if c.Cls == "bufline" {
+		base := "none"
+		if l, _ := c.Arg[0].(string); l == "70k" {
+			base = "longline"
+		}
 		item, x = mfRenderItem(c.Format, base, rest)
 	} else {
 		item, x = mfRenderItem(c.Format, c.Cls, rest)
@@ -346,6 +440,12 @@ func mfIdentify(d mfDelivery, entries []mfEntry) string {
 	for _, e := range entries {
 		if e.Empty {
 			if d.Tag == "" && d.Body == "" && (d.URI == "" || d.URI == "/") {
+				return e.ID
+			}
+			continue
+		}
+		if e.Loose {
+			if d.Tag == e.Tag {
 				return e.ID
 			}
 			continue
